@@ -151,3 +151,24 @@ package diam
 //@   requires m != nil
 //@   ensures nonnil: d != nil
 //@ end
+//@
+//@ # ======================= serialisation (C02) ============================
+//@ func (*AVP).SerializeTo(a, b) (err)
+//@   property C01 C02 C03
+//@   requires a != nil
+//@   requires room: a.Data != nil ==> valid(a.Data) && len(b) >= avplen(a) && dlen(a.Data) >= 0 && dlen(a.Data) < (1<<24) - 12
+//@   requires separate: a.Data != nil ==> !viewsInto(a.Data, b)
+//@   modifies b[0:avplen(a)]
+//@   ensures nodata: a.Data == nil <==> err != nil
+//@   ensures [C02] code: err == nil ==> be32(b, 0) == a.Code
+//@   ensures [C02] flags: err == nil ==> b[4] == a.Flags
+//@   ensures [C02] length: err == nil ==> int(be24(b, 5)) == hdrlen(a.Flags) + old(dlen(a.Data))
+//@   ensures [C02] vendor: err == nil && a.Flags & 0x80 == 0x80 ==> be32(b, 8) == a.VendorID
+//@   ensures [C02 thorough] payload: err == nil && !typeis(a.Data, *GroupedAVP) ==> forall i int :: 0 <= i && i < dlen(a.Data) ==> b[hdrlen(a.Flags) + i] == old(dbyte(a.Data, i))
+//@   ensures [C02 thorough] padding: err == nil ==> forall i int :: 0 <= i && i < dpad(a.Data) ==> b[hdrlen(a.Flags) + dlen(a.Data) + i] == 0
+//@   loop 0
+//@     modifies b[0:dpad(a.Data)]
+//@     invariant 0 <= i && i <= dpad(a.Data)
+//@     invariant [C02 thorough] zeroed: forall j int :: 0 <= j && j < i ==> b[j] == 0
+//@   end
+//@ end
